@@ -252,6 +252,57 @@ fn key_err(msg: &str) -> String {
     }
 }
 
+/// external IVKs through the primitive crates (oracles 5 sapling, 4 orchard)
+fn orc_s_fvk_ivk(fvk: &[u8]) -> Option<B> {
+    let k = sapling::zip32::DiversifiableFullViewingKey::from_bytes(&arr(fvk)?)?;
+    Some(k.to_external_ivk().to_bytes().to_vec())
+}
+fn orc_o_fvk_ivk(fvk: &[u8]) -> Option<B> {
+    let k = orchard::keys::FullViewingKey::from_bytes(&arr(fvk)?)?;
+    Some(k.to_ivk(orchard::keys::Scope::External).to_bytes().to_vec())
+}
+/// narrowing a decoded UFVK to its UIVK and encoding that: the item list of the derived key
+fn narrow_case(net: Net, k: &UnifiedFullViewingKey, sb: &Option<B>, ob: &Option<B>, kept: &[(u32, B)]) {
+    let mut ents = vec![];
+    if let Some(b) = sb {
+        if let Some(v) = orc_s_fvk_ivk(b) {
+            ents.push(format!("oe 5 \"{}\" 0 (osome \"{}\")", hex(b), hex(&v)));
+        }
+    }
+    if let Some(b) = ob {
+        if let Some(v) = orc_o_fvk_ivk(b) {
+            ents.push(format!("oe 4 \"{}\" 0 (osome \"{}\")", hex(b), hex(&v)));
+        }
+    }
+    let o = match catch(|| k.to_unified_incoming_viewing_key().encode(&net)) {
+        None => PANIC.to_string(),
+        Some(s) => match Uivk::decode(&s) {
+            Ok((_, u)) => {
+                let items: Vec<(u32, B)> = u
+                    .items_as_parsed()
+                    .iter()
+                    .map(|i| match i {
+                        Ivk::P2pkh(d) => (0, d.to_vec()),
+                        Ivk::Sapling(d) => (2, d.to_vec()),
+                        Ivk::Orchard(d) => (3, d.to_vec()),
+                        Ivk::Unknown { typecode, data } => (*typecode, data.clone()),
+                    })
+                    .collect();
+                ok(p_items(&items))
+            }
+            Err(_) => ok(p_items(&[(999_999_999, vec![])])),
+        },
+    };
+    case(format!(
+        "CExtra (XNarrowNt [{}] (mkUfvk None {} {} {}) {})",
+        ents.join("; "),
+        sx(sb),
+        sx(ob),
+        p_items(kept),
+        o
+    ));
+}
+
 fn fvk_case(net: Net, s: &str) {
     let mut tab = Tab::default();
     scan_items(&mut tab, s, true);
@@ -262,6 +313,7 @@ fn fvk_case(net: Net, s: &str) {
                 Some(eo) => {
                     let sb = k.sapling().map(|x| x.to_bytes().to_vec());
                     let ob = k.orchard().map(|x| x.to_bytes().to_vec());
+                    narrow_case(net, &k, &sb, &ob, &fvk_kept(&e));
                     ok(format!(
                         "((mkUfvk None {} {} {}), ({}, {}))",
                         sx(&sb), sx(&ob), p_items(&fvk_kept(&e)), hx(&eo.0), hx(&eo.1)
@@ -350,14 +402,14 @@ fn main() {
                     items.push((0, rng.bytes(65)));
                     with_t += 1;
                 }
-                let shape = (k / 3) % 3;
-                if shape != 1 {
+                let shape = if k == 9 { 3 } else { (k / 3) % 3 };
+                if shape != 1 && shape != 3 {
                     items.push((2, if fvk { fs.clone() } else { is.clone() }));
                 }
-                if shape != 2 {
+                if shape != 2 && shape != 3 {
                     items.push((3, if fvk { fo.clone() } else { io.clone() }));
                 }
-                if rng.chance(1, 3) {
+                if shape == 3 || rng.chance(1, 3) {
                     let mut tcs: Vec<u32> =
                         (0..1 + rng.below(2)).map(|_| *rng.pick(&[4u32, 5, 0xfd, 0xffff, 0x0200_0000])).collect();
                     tcs.sort();
